@@ -45,6 +45,8 @@ def rules(ctx):
     _fm.transition_formulas(ctx, "R2")
     from .C12 import distance_sub_keeps_infinity
     distance_sub_keeps_infinity(ctx, "R5")      # a valid request that needs the overflow depot is answered, not dropped by a panic
+    from .C09 import recomputed_from_new_nodes
+    recomputed_from_new_nodes(ctx)              # ... and the distance / maintenance figures after the depots were re-assigned
     from .C07 import formation_getters
     formation_getters(ctx, "R2")                # the unserved passengers reported with the answer are those of its formations
     o, fd = ctx.require_fn("R1.route-table", "T7", MAIN, "GET /health -> healthy and POST /solve -> solve are registered")
